@@ -91,9 +91,17 @@ pub open spec fn escape_spec(c: char, sp: bool) -> Seq<char> {
     else if sp && 0x10000 <= (c as u32) <= 0x10FFFF { spec_surrogates(c) }
     else { spec_escape_unicode(c) }
 }
+#[verifier::external_body] pub fn vx_utf16_units_as_escapes(c: char) -> (r: String) ensures r@ == spec_surrogates(c) { unimplemented!() }
 impl Grapheme {''')
     G = r'^impl Grapheme \{'
-    b.assumed_fn('grapheme.rs', 'convert_to_surrogate_pair', within=G, ensures=['r@ == spec_surrogates(c)'], why='encode_utf16 + format! closure')
+    # convert_to_surrogate_pair: whole function; its one expression -- the UTF-16 code units of c, each written as \\u{hex} -- is one specified stand-in.
+    # Any other body (hand-written surrogate arithmetic, another format) is outside the dialect: UNDECIDED, never silently accepted.
+    SUR = r'c\.encode_utf16\(&mut \[0; 2\]\)\s*\.iter\(\)\s*\.map\(\|it\| format!\("\\\\u\{\{\{:x\}\}\}", it\)\)\s*\.join\(""\)'
+    cs, _, _ = X.fn(b.src('grapheme.rs'), 'convert_to_surrogate_pair', within=G)
+    if not re.search(SUR, cs): raise X.LostAnchor('grapheme.rs::convert_to_surrogate_pair: the body is no longer `c.encode_utf16(..).iter().map(|it| format!("\\u{{{:x}}}", it)).join("")` (another way of computing the surrogates cannot be judged against the uninterpreted `spec_surrogates`)')
+    b.verified_fn('grapheme.rs', 'convert_to_surrogate_pair', within=G, props=['C07'], fname='Grapheme::convert_to_surrogate_pair',
+                  clauses=[Clause('escape.surrogate_pair_is_the_utf16_encoding', 'r@ == spec_surrogates(c)', ['C11'])],
+                  extra_rules=[('R19', r'c\.encode_utf16\(&mut \[0; 2\]\)\s*\.iter\(\)\s*\.map\(\|it\| format!\("\\\\u\{\{\{:x\}\}\}", it\)\)\s*\.join\(""\)', 'vx_utf16_units_as_escapes(c)', 'char::encode_utf16 + `\\u{{{:x}}}` per code unit + join: the UTF-16 code units of c, each as \\u{hex} (spec_surrogates, uninterpreted)')])
     b.verified_fn('grapheme.rs', 'escape', within=G, props=['C07'], fname='Grapheme::escape',
                   clauses=[Clause('escape.post', 'r@ == escape_spec(c, use_surrogate_pairs)', ['C11'])],
                   extra_rules=[('R4', r'\bc\.to_string\(\)', 'vx_char_to_string(c)', 'char -> one-char String')])
